@@ -200,17 +200,33 @@ def listed_shapes():
 
 
 # ------------------------------------------------------------------------------------------------ XML models
-def xml_model(texts):
-    """one template; location i carries texts[i] as invariant, edge i (a self loop on location i) as guard"""
+SHAPES = ["plain", "rate", "uninstantiated", "dynamic"]
+
+
+def xml_model(texts, shape="plain"):
+    """one template P; location i carries texts[i] as invariant, edge i (a self loop on location i) as guard.  The verdict on a formula
+    must not depend on what else the location carries or on how (whether) the template reaches the system:
+      rate            every location also has an exponential rate label
+      uninstantiated  P is not on the system line (a second template is); the type checker still checks it
+      dynamic         P is a dynamic template, spawned by the template on the system line"""
     locs, trans = [], []
     for n, t in enumerate(texts):
-        locs.append('<location id="id%d"><name>L%d</name><label kind="invariant">%s</label></location>' % (n, n, escape(t)))
+        rate = '<label kind="exponentialrate">%d</label>' % (n % 3 + 1) if shape == "rate" else ""
+        locs.append('<location id="id%d"><name>L%d</name><label kind="invariant">%s</label>%s</location>' % (n, n, escape(t), rate))
         trans.append('<transition><source ref="id%d"/><target ref="id%d"/><label kind="guard">%s</label></transition>' % (n, n, escape(t)))
+    decls, extra, system = DECLS, "", "system P;"
+    if shape in ("uninstantiated", "dynamic"):
+        upd = '<label kind="assignment">spawn P()</label>' if shape == "dynamic" else ""
+        extra = ('<template><name>Q</name><location id="idq"><name>Q0</name></location><init ref="idq"/>'
+                 '<transition><source ref="idq"/><target ref="idq"/>%s</transition></template>\n' % upd)
+        system = "system Q;"
+        if shape == "dynamic":
+            decls = DECLS + "\ndynamic P();"
     return ('<?xml version="1.0" encoding="utf-8"?>\n<nta><declaration>%s</declaration>\n<template><name>P</name><declaration></declaration>\n%s\n'
-            '<init ref="id0"/>\n%s\n</template>\n<system>system P;</system></nta>\n' % (escape(DECLS), "\n".join(locs), "\n".join(trans)))
+            '<init ref="id0"/>\n%s\n</template>\n%s<system>%s</system></nta>\n' % (escape(decls), "\n".join(locs), "\n".join(trans), extra, system))
 
 
-def run_models(build, docs):
+def run_models(build, docs, shapes=None):
     """docs: list of lists of formula texts.  Returns per doc: (list of dict(inv_ok, guard_ok, guard_type, inv_msgs, guard_msgs), raw block)"""
     exe = core.build_harness(build, "c10", ["c10.cpp"])
     d = os.path.join(core.CACHE, "c10-work-%d" % os.getpid())
@@ -219,7 +235,7 @@ def run_models(build, docs):
     try:
         for n, texts in enumerate(docs):
             p = os.path.join(d, "m%05d.xml" % n)
-            open(p, "w").write(xml_model(texts))
+            open(p, "w").write(xml_model(texts, shapes[n] if shapes else SHAPES[n % len(SHAPES)]))
             paths.append(p)
         rc, out, err, dt = core.run_exe(exe, [], stdin_text="\n".join(paths) + "\n", timeout=1500)
     finally:
@@ -367,7 +383,7 @@ def run(ctx):
     if not os.environ.get("C10_NO_ASAN"):
         k = min(len(docs), 25 if not ctx.thorough else 200)
         idx = sorted(ctx.rng.sample(range(len(docs)), k))
-        ares, aerr, adt = run_models(core.build_repo("asan"), [docs[i] for i in idx])
+        ares, aerr, adt = run_models(core.build_repo("asan"), [docs[i] for i in idx], [SHAPES[i % len(SHAPES)] for i in idx])
         if aerr is not None:
             ctx.finding("impl:sanitizer", "the XML harness died under ASan/UBSan (rc=%s)" % aerr["rc"], aerr)
         else:
@@ -375,7 +391,7 @@ def run(ctx):
                    != [(x["guard_ok"], x["inv_ok"], x["guard_type"]) for x in res[i][0]]]
             cov["asan_sample"] = {"xml_models": k, "formulas": sum(len(docs[i]) for i in idx), "different_answers": len(bad), "seconds": round(adt, 1)}
             if bad:
-                ctx.finding("impl:sanitizer-build-differs", "ASan build answers differently on model %d" % bad[0], {"xml": xml_model(docs[bad[0]])})
+                ctx.finding("impl:sanitizer-build-differs", "ASan build answers differently on model %d" % bad[0], {"xml": xml_model(docs[bad[0]], SHAPES[bad[0] % len(SHAPES)])})
     ctx.log("library checked %d formulas (as guard and as invariant) in %d XML models, %.1fs" % (len(forms), len(docs), dt))
     verdicts = []
     stray = []
@@ -434,7 +450,7 @@ def run(ctx):
             better = key not in viol or (f[0] == "|") > (viol[key][0][0] == "|") or \
                 ((f[0] == "|") == (viol[key][0][0] == "|") and size(f) < size(viol[key][0]))
             if better:
-                viol[key] = (f, texts[n], g_ok, i_ok, gk)
+                viol[key] = (f, texts[n], g_ok, i_ok, gk, n)
     # completeness: conjunction of accepted atoms is accepted -- atoms' own verdicts come from the exhaustive leaf list
     atom_verdict = {}
     for n, f in enumerate(forms):
@@ -456,7 +472,7 @@ def run(ctx):
                         and tuple(a[1:]) not in exceptions:
                     key = "accepted-with-rejected-atom:%s" % leaf_name(a)
                     if key not in viol or size(f) < size(viol[key][0]):
-                        viol[key] = (f, texts[n], verdicts[n]["guard_ok"], verdicts[n]["inv_ok"], guard_kind(verdicts[n]["guard_type"]))
+                        viol[key] = (f, texts[n], verdicts[n]["guard_ok"], verdicts[n]["inv_ok"], guard_kind(verdicts[n]["guard_type"]), n)
     conj_n = 0
     for n, f in enumerate(forms):
         if f[0] == "&" and is_conj(f):
@@ -468,13 +484,14 @@ def run(ctx):
             alli = all(atom_verdict.get(a, (True, True))[1] for a in at)
             if (allg and not verdicts[n]["guard_ok"]) or (alli and not verdicts[n]["inv_ok"]):
                 key = "conjunction-rejected:" + "+".join(sorted(set(leaf_name(a) for a in at)))[:80]
-                viol.setdefault(key, (f, texts[n], verdicts[n]["guard_ok"], verdicts[n]["inv_ok"], guard_kind(verdicts[n]["guard_type"])))
-    for key, (f, text, g_ok, i_ok, gk) in sorted(viol.items()):
+                viol.setdefault(key, (f, texts[n], verdicts[n]["guard_ok"], verdicts[n]["inv_ok"], guard_kind(verdicts[n]["guard_type"]), n))
+    for key, (f, text, g_ok, i_ok, gk, n) in sorted(viol.items()):
+        shp = SHAPES[(n // per_doc) % len(SHAPES)]
         what = ("`%s` is %s as guard and %s as invariant (type %s) although it is %s"
                 % (text, "accepted" if g_ok else "rejected", "accepted" if i_ok else "rejected", gk,
                    "a plain conjunction of accepted atoms" if key.startswith("conjunction") else
                    "built over a clock atom that is rejected on its own" if key.startswith("accepted-with") else "not convex"))
-        ctx.finding(key, what, {"formula": wire(f), "text": text, "xml": xml_model([text]), "guard_accepted": g_ok, "invariant_accepted": i_ok,
+        ctx.finding(key, what, {"formula": wire(f), "text": text, "xml": xml_model([text], shp), "model_shape": shp, "guard_accepted": g_ok, "invariant_accepted": i_ok,
                                 "how": "harness/c10.cpp on the XML model (parse_XML_file)"})
     # exceptions of the model must show on the library (otherwise model and library differ: correspondence catches it)
     # ---- expression level correspondence
@@ -507,6 +524,7 @@ def run(ctx):
     cov["distribution"] = {"formulas": len(forms), "xml_models": len(docs), "accepted_as_guard": acc_g, "accepted_as_invariant": acc_i,
                            "not_convex": nonconvex, "in_property_language": wf_n, "guard_kinds": kinds, "depth_histogram": depth_hist,
                            "plain_conjunctions_checked": conj_n, "max_depth": max(depth_hist)}
+    cov["model_shapes"] = {sh: len([1 for i in range(len(docs)) if SHAPES[i % len(SHAPES)] == sh]) for sh in SHAPES}
     cov["rule"] = ("all 96 comparison leaves x {alone, ||, !, &&, forall, exists}, the shapes listed in the statement, %d random trees "
                    "(depth 2..8; two thirds biased towards convex shapes), %d plain conjunctions; each as guard AND as invariant in an XML model"
                    % (n_random, 600 if not ctx.thorough else 6000))
